@@ -30,10 +30,12 @@ const (
 	opOutClose
 	opListenSysex // in.Listen with sysex enabled (second use of the port with another configuration)
 	opSendSysex
+	opStopAgain // the newest stop function a second time (defer stop() plus an explicit call)
+	opStopOld   // the stop function of the listener before, once more, while nobody listens
 	nLcOps
 )
 
-var lcNames = []string{"in.Open", "out.Open", "Send(note)", "in.Listen", "midi.ListenTo", "stop()", "Send(start)", "midi.SendTo(note)", "in.Close", "out.Close", "in.Listen(sysex)", "Send(sysex)"}
+var lcNames = []string{"in.Open", "out.Open", "Send(note)", "in.Listen", "midi.ListenTo", "stop()", "Send(start)", "midi.SendTo(note)", "in.Close", "out.Close", "in.Listen(sysex)", "Send(sysex)", "stop() again", "older stop() again"}
 
 type lcModel struct {
 	inOpen, outOpen bool
@@ -66,6 +68,10 @@ func (l *lcInst) enabled(op lcOp) bool {
 		return l.m.listener != 1
 	case opStop:
 		return l.m.listener != 0
+	case opStopAgain:
+		return l.m.listener == 2
+	case opStopOld:
+		return l.m.listener == 2 && len(l.stops) >= 2
 	case opInClose:
 		return l.m.listener != 1
 	}
@@ -121,6 +127,10 @@ func (l *lcInst) apply(op lcOp) (sig, what string) {
 		case opStop:
 			l.stops[len(l.stops)-1]()
 			l.m.listener = 2
+		case opStopAgain:
+			l.stops[len(l.stops)-1]()
+		case opStopOld:
+			l.stops[len(l.stops)-2]()
 		case opSendNote, opSendRT, opSendTo, opSendSysex:
 			msg := note
 			if op == opSendRT {
@@ -203,7 +213,7 @@ func (l *lcInst) key() string {
 }
 
 func lifecycle() {
-	b := &engine.BFS{NumOps: int(nLcOps), MaxStates: 200000, MaxDepth: 0}
+	b := &engine.BFS{NumOps: int(nLcOps), MaxStates: 200000, MaxDepth: 40, MaxTransitions: 400000, Stop: func() bool { return ctx.ViolationCount() > 0 }}
 	b.Run = func(path []uint16) (string, bool) {
 		l := newLc()
 		for i, p := range path {
